@@ -58,6 +58,7 @@ class Report:
         self.extra = {}
         self.assumptions = list(STD_ASSUMPTIONS)
         self.lemmas = []
+        self.sample_budget = 6       # passing samples re-run on the genuine stack (drive.run_op)
 
     def note(self, msg):
         print("[%s] %s" % (self.pid, msg), flush=True)
